@@ -3,6 +3,9 @@ import Frp.Model.HttpPool
 import Frp.Model.HttpTime
 import Frp.Lemmas.HttpRewrite
 import Frp.Props.C01
+import Frp.Lemmas.CodecPool
+import Frp.Gen.CodecFacts
+import Frp.Model.ConnReader
 /-
   C02 — HTTP proxying preserves requests and responses apart from declared rewrites.   (partial)
 
@@ -35,6 +38,15 @@ import Frp.Props.C01
       useEncryption / useCompression / bandwidthLimit mode, every burst > 0, any framing, any write
       pattern, any chunking of the wire (`e2e_request_delivered`, `e2e_response_delivered`,
       `e2e_*_prefix`, `e2e_exchange_transparent`, `limited_write_whole`, predicate `e2eHolds`).
+
+    * concurrent exchanges (section Concurrent, Frp/Model/CodecPool.lean): the pooled snappy reader / writer of
+      compressed work connections are recycled by client/proxy/proxy.go only after `libio.Join` returned and
+      never on the plugin path; under that discipline, for EVERY interleaving of work connections (plain and
+      plugin path mixed) and every choice of `sync.Pool.Get`, no two live connections hold the same object and
+      every Read / Write works on the stream of its own connection (`codec_exclusive`, `codec_own_stream`,
+      `codec_frp_own_stream`); recycling at the return of the plugin path or twice breaks it
+      (`codec_release_at_return_witness`, `codec_double_release_witness`, `codec_unsafe_breaks`); predicate
+      `roundHolds` = every user of a round of simultaneous exchanges gets exactly its own answer.
 
   What FAILS on the code as it is (witnesses, reproduced on the real code by engine `http`)
     * `pool_stale_owner_witness`: idle backend connections survive `UnRegister`, a route
@@ -1170,6 +1182,144 @@ example : chunks 3 [1, 2, 3, 4, 5, 6, 7] = [[1, 2, 3], [4, 5, 6], [7]] ∧
     (writerTrace 3 [1, 2, 3, 4, 5, 6, 7]).map (·.1) = [3, 3, 1] := by decide
 
 end Tunnel
+
+
+/-! ## concurrent exchanges: the pooled compression objects, and who may still use them
+
+  `useCompression` on frpc takes the snappy reader and writer of a work connection from ONE process-wide
+  `sync.Pool` (golib `WithCompressionFromPool`).  An object that goes back to the pool while somebody still
+  reads or writes through it is `Reset` onto the stream of the NEXT work connection: from then on the first
+  user's bytes are decoded from / written into the second user's stream (hung requests, answers on another
+  user's connection).  client/proxy/proxy.go `HandleTCPWorkConnection` recycles only after `libio.Join`
+  returned (plain path) and NEVER on the plugin path, where `Handle` of the HTTP plugins merely queues the
+  connection for the plugin's http.Server and returns (`CodecPool.frpDisc`). -/
+section Concurrent
+open CodecPool
+
+/-- what client/proxy/proxy.go does is a safe discipline -/
+theorem codec_frp_safe : Safe frpDisc := by decide
+
+/-- tie to the source: the recycle sites that translate/gen_codecfacts.go reads from client/proxy/proxy.go on every
+    run (`Gen.CodecFacts.disc`) are the hand-written `frpDisc` … -/
+theorem codec_source_disc : Gen.CodecFacts.disc = frpDisc := by decide
+
+/-- … so the code as it is on disk follows a safe discipline (breaks when a recycle site is added or moved) -/
+theorem codec_source_safe : Safe Gen.CodecFacts.disc := by decide
+
+/-- … and `Handle` of the four HTTP plugins only queues the connection: it stays in use after
+    HandleTCPWorkConnection returned, which is why the plugin path of the model keeps it live until `done` -/
+theorem codec_source_plugins_queue :
+    ∀ p ∈ ["http2http", "http2https", "https2http", "https2https"], p ∈ Gen.CodecFacts.queueingPlugins := by decide
+
+/-- **no sharing, all interleavings**: under a safe discipline, after ANY sequence of events (work connections
+    of the plain and the plugin path starting, reading / writing, returning, failing, ending, in any order, any
+    number of them alive at once) and for ANY choices of `sync.Pool.Get`, no two live connections hold the
+    same object -/
+theorem codec_exclusive (d : Disc) (hd : Safe d) (evs : List Ev) :
+    exclusive (run d St.init evs).1 = true :=
+  exclusive_of_inv (run_inv hd evs inv_init)
+
+/-- **own stream, all interleavings**: every Read / Write of every connection works on that connection's stream -/
+theorem codec_own_stream (d : Disc) (hd : Safe d) (evs : List Ev) :
+    ownStream (run d St.init evs).2 = true :=
+  run_ownStream hd evs inv_init
+
+/-- … from any reachable state on (rounds follow rounds; the engine carries the pool from op to op) -/
+theorem codec_own_stream_from (d : Disc) (hd : Safe d) (pre evs : List Ev) :
+    ownStream (run d (run d St.init pre).1 evs).2 = true :=
+  run_ownStream hd evs (run_inv hd pre inv_init)
+
+/-- the code as it is -/
+theorem codec_frp_own_stream (evs : List Ev) :
+    ownStream (run frpDisc St.init evs).2 = true ∧ exclusive (run frpDisc St.init evs).1 = true :=
+  ⟨codec_own_stream _ codec_frp_safe evs, codec_exclusive _ codec_frp_safe evs⟩
+
+/-- **release at return on the plugin path** (a `defer` right after `WithCompressionFromPool`): connection 1 is
+    queued for the plugin's server, the function returns and recycles, connection 2 takes the object out of the
+    pool — the server of connection 1 now reads connection 2's stream -/
+theorem codec_release_at_return_witness :
+    let d : Disc := { plainRel := 1, pluginRelAtReturn := true, errRel := true }
+    let evs := [Ev.start 1 true none, .ret 1, .start 2 true (some 0), .io 1]
+    (run d St.init evs).2.getLast? = some (Ev.io 1, some 2) ∧
+    ownStream (run d St.init evs).2 = false ∧ exclusive (run d St.init evs).1 = false := by decide
+
+/-- **double recycle on the plain path** (a `defer` plus the call after Join): the object lies in the pool
+    twice, the next two connections both get it -/
+theorem codec_double_release_witness :
+    let d : Disc := { plainRel := 2, pluginRelAtReturn := false, errRel := true }
+    let evs := [Ev.start 1 false none, .ret 1, .start 2 false (some 0), .start 3 false (some 0), .io 2]
+    (run d St.init evs).2.getLast? = some (Ev.io 2, some 3) ∧
+    ownStream (run d St.init evs).2 = false ∧ exclusive (run d St.init evs).1 = false := by decide
+
+/-- the hypothesis is needed: EVERY discipline that is not safe has a schedule on which a connection reads
+    another connection's stream -/
+theorem codec_unsafe_breaks (d : Disc) (hd : ¬ Safe d) : ∃ evs, ownStream (run d St.init evs).2 = false := by
+  by_cases hp : d.pluginRelAtReturn = true
+  · refine ⟨[Ev.start 1 true none, .ret 1, .start 2 true (some 0), .io 1], ?_⟩
+    simp [CodecPool.run, CodecPool.step, findConn, ownerOf, CodecPool.St.init, hp, ownStream]
+  · have h2 : 2 ≤ d.plainRel := by
+      unfold Safe at hd
+      have : ¬ d.plainRel ≤ 1 := fun h => hd ⟨h, by simpa using hp⟩
+      omega
+    obtain ⟨n, hn⟩ : ∃ n, d.plainRel = n + 2 := ⟨d.plainRel - 2, by omega⟩
+    refine ⟨[Ev.start 1 false none, .ret 1, .start 2 false (some 0), .start 3 false (some 0), .io 2], ?_⟩
+    simp [CodecPool.run, CodecPool.step, findConn, ownerOf, CodecPool.St.init, hn, ownStream, dropConn, List.replicate_succ]
+
+/-- what engine `httpe2e` observed of ONE exchange of a round of simultaneous users -/
+structure ConcObs where
+  ex : E2eObs
+  echoOk : Bool      -- the answer carries the id of THIS exchange: it is the user's own answer, nobody else's
+  deriving DecidableEq, Repr
+
+def ownAnswer (o : ConcObs) : Bool := e2eHolds o.ex && o.echoOk
+
+/-- a round: for every user the exchanges it carried on its connection -/
+def roundHolds (us : List (List ConcObs)) : Bool := us.all (·.all ownAnswer)
+
+theorem roundHolds_sound (us : List (List ConcObs)) :
+    roundHolds us = true ↔ ∀ u ∈ us, ∀ o ∈ u, e2eHolds o.ex = true ∧ o.echoOk = true := by
+  simp [roundHolds, ownAnswer]
+
+/-- the predicate asks for no more than the model gives: when every Read / Write of the round's schedule works
+    on its own stream (which `codec_own_stream` gives for every schedule) each exchange is the single-exchange
+    case of `model_e2eHolds`, so a round made of such observations satisfies it -/
+theorem model_roundHolds (us : List (List E2eObs)) (h : ∀ u ∈ us, ∀ o ∈ u, e2eHolds o = true) :
+    roundHolds (us.map (·.map fun o => { ex := o, echoOk := true })) = true := by
+  rw [roundHolds_sound]
+  intro u hu o ho
+  obtain ⟨u', hu', rfl⟩ := List.mem_map.mp hu
+  obtain ⟨o', ho', rfl⟩ := List.mem_map.mp ho
+  exact ⟨h u' hu' o' ho', rfl⟩
+
+/-! ### keep-alive on a work connection served by a client plugin (Frp/Model/ConnReader.lean) -/
+open ConnReader Layers
+
+/-- a bare (or only rate-limited) work connection: every request offered on it is answered -/
+theorem plugin_raw_serves_all (o : Opts) (h : wrapperSticky o = false) (n : Nat) : pluginConnServes o n = n := by
+  unfold pluginConnServes
+  rw [h]
+  induction n with
+  | zero => rfl
+  | succ n ih => simp only [serve, rstep, Bool.or_false, Bool.not_false, if_true]; omega
+
+theorem serve_err (s : Bool) (n : Nat) : serve { sticky := s, err := true } n = 0 := by
+  cases n <;> simp [serve, rstep]
+
+/-- NOT what the property asks: with useEncryption or useCompression the plugin's server answers exactly ONE
+    request per work connection, however many follow -/
+theorem plugin_wrapped_serves_one (o : Opts) (h : wrapperSticky o = true) (n : Nat) :
+    pluginConnServes o (n + 1) = 1 := by
+  unfold pluginConnServes
+  rw [h]
+  simp [serve, rstep, serve_err]
+
+/-- witness: two requests on one keep-alive connection through an https2http proxy with useCompression —
+    the second is never answered -/
+theorem plugin_wrapped_keepalive_witness :
+    pluginConnServes { enc := false, comp := true, limSrv := false, limCli := false } 2 = 1 ∧
+    pluginConnServes { enc := false, comp := false, limSrv := false, limCli := true } 2 = 2 := by decide
+
+end Concurrent
 
 /-! ## non-vacuity -/
 
